@@ -26,13 +26,15 @@ ALPHABET = (
     + [("to_synodic4",), ("to_synodic2", "q3"), ("to_cm",)]
     + [("lp_ham", d, f) for d in DEGS[:2] for f in FORMS[:2]]
     + [("lp_get_cm", d) for d in DEGS]
+    + [("lp_hamsys", d, f) for d in DEGS[:2] for f in FORMS[:2]]
+    + [("lp_genfun", d) for d in DEGS[:2]] + [("lp_hams", d) for d in DEGS[:2]]
     + [("lp_read", n) for n in ("position", "energy", "jacobi", "eigenvalues", "linear_data", "normal_form_transform", "is_stable")]
     + [("bad_degree",), ("save_load",)]
     + [("map_compute", s, o) for s in range(len(SECTIONS)) for o in range(len(MAPOPTS))]
-    + [("map_refetch",), ("map_points", 0)]
+    + [("map_refetch",), ("map_points", 0), ("map_points", 1), ("map_states", 0)]
 )
 WEIGHTS = {"setdeg": 1.5, "cm_ham": 1.2, "read_degree": 0.8, "compute": 1.0, "to_synodic4": 0.6, "to_synodic2": 0.5, "to_cm": 0.5, "lp_ham": 1.0,
-           "lp_get_cm": 1.0, "lp_read": 0.9, "bad_degree": 0.4, "save_load": 0.2, "map_compute": 1.6, "map_refetch": 0.5, "map_points": 0.5}
+           "lp_get_cm": 1.0, "lp_read": 0.9, "lp_hamsys": 0.6, "lp_genfun": 0.4, "lp_hams": 0.4, "bad_degree": 0.4, "save_load": 0.2, "map_compute": 1.6, "map_refetch": 0.5, "map_points": 0.8, "map_states": 0.4}
 REDUCED = [("setdeg", 3), ("setdeg", 5), ("cm_ham", 5), ("cm_ham", 4), ("read_degree",), ("compute", "center_manifold_real"), ("to_synodic4",),
            ("lp_ham", 4, "physical"), ("lp_get_cm", 4), ("map_compute", 0, 0), ("map_compute", 0, 1), ("map_refetch",)]
 MUTATORS = {"setdeg", "cm_ham", "bad_degree", "save_load"}
@@ -122,6 +124,13 @@ def apply_cm(cm, lp, op):
         return hsig(lp.hamiltonian(op[1], op[2]))
     if k == "lp_get_cm":
         return int(lp.get_center_manifold(op[1]).degree)
+    if k == "lp_hamsys":
+        hs = lp.hamiltonian_system(op[2], op[1])
+        return {"degree": int(hs.degree), "blocks": [np.asarray(b) for b in hs.poly_H()]}
+    if k == "lp_genfun":
+        return [{"degree": int(g.degree), "G": [np.asarray(b) for b in g.poly_G]} for g in lp.generating_functions(op[1])]
+    if k == "lp_hams":
+        return {name: hsig(h) for name, h in sorted(lp.hamiltonians(op[1]).items())}
     if k == "lp_read":
         return _norm(getattr(lp, op[1]))
     raise AssertionError(op)
@@ -201,12 +210,12 @@ def run_history(ctx: RunCtx, U) -> None:
             mutated = True
             continue
         # ------------------------------------------------------------ map operations
-        if k in ("map_compute", "map_refetch", "map_points"):
+        if k in ("map_compute", "map_refetch", "map_points", "map_states"):
             if k == "map_refetch" or c["map"] is None:
                 out = attempt(lambda: c["real"].poincare_map(ENERGY))
                 if out.failed:
                     raise Violation("C20/map/poincare_map-raised", f"{out.kind()}: {out.exc} | history: {hist}")
-                c["map"] = {"real": out.value, "last": None}
+                c["map"] = {"real": out.value, "last": {}}
                 if k == "map_refetch":
                     log.add("op", entry, "ok")
                     continue
@@ -225,13 +234,18 @@ def run_history(ctx: RunCtx, U) -> None:
                                                              f"degree-{c['deg']} manifold returned {len(r_out.value['states'])} rows (first {brief(r_out.value['states'][:1])}); "
                                                              f"a fresh map of a fresh manifold returns {len(t_out.value['states'])} rows "
                                                              f"(first {brief(t_out.value['states'][:1])}) | history: {hist}")
-                m["last"] = (sec, oi, c["deg"])
+                m["last"][sec] = (oi, c["deg"])
                 ctx.probe("map_compared")
-            else:  # map_points: stored result (two-sided)
-                if m["last"] is None:
-                    continue
-                sec, oi, deg_then = m["last"]
-                r_out = attempt(lambda: np.asarray(m["real"].get_points(section_coord=sec), float))
+            else:  # map_points / map_states: stored result of the last compute for THAT section (two-sided)
+                sec = SECTIONS[op[1]]
+                if sec not in m["last"]:
+                    continue  # reading would trigger a default-options computation (40 iterations): not explored
+                oi, deg_then = m["last"][sec]
+                col = (lambda a: a) if k == "map_points" else (lambda a: a)
+                if k == "map_points":
+                    r_out = attempt(lambda: np.asarray(m["real"].get_points(section_coord=sec), float))
+                else:
+                    r_out = attempt(lambda: np.asarray(m["real"].get_section(sec).states, float)[:, :4])
                 if r_out.failed:
                     ctx.probe("map_points_unset")
                     continue
@@ -239,13 +253,13 @@ def run_history(ctx: RunCtx, U) -> None:
                     lambda: map_rows(_cm(_lp(U, "sys_twin", c["where"]), c["deg"]).poincare_map(ENERGY).compute(section_coord=sec, options=_mapopts(oi)))))
                 got = r_out.value
                 got = got[np.lexsort(tuple(got.T[::-1]))] if len(got) else got
-                exp = t_out.value["points"]
+                exp = t_out.value["points"] if k == "map_points" else t_out.value["states"]
                 exp = exp[np.lexsort(tuple(exp.T[::-1]))] if len(exp) else exp
                 if (t_out.failed or not eq(got, exp)) and deg_then != c["deg"] and known_active("C20-K2-stored-map-section-survives-degree-change"):
                     # K2: exactly the section computed at the earlier degree
                     old = twin_memo(("map", c["where"], deg_then, sec, oi), lambda: attempt(
                         lambda: map_rows(_cm(_lp(U, "sys_twin", c["where"]), deg_then).poincare_map(ENERGY).compute(section_coord=sec, options=_mapopts(oi)))))
-                    oldp = old.value["points"] if not old.failed else None
+                    oldp = (old.value["points"] if k == "map_points" else old.value["states"]) if not old.failed else None
                     if oldp is not None and eq(got, oldp[np.lexsort(tuple(oldp.T[::-1]))] if len(oldp) else oldp):
                         ctx.note_known("C20-K2-stored-map-section-survives-degree-change")
                         continue
